@@ -1253,6 +1253,10 @@ func (c *Ctx) addressOf(st *State, e ast.Expr) Val {
 	if p.heap {
 		want := c.elemPrefix(p.ty)
 		if p.prefix != want {
+			if c.fc != nil && c.fc.Opts["only-stated"] != "" {
+				c.trusted["&x.f (address of a field inside an object) is an opaque token that only contract-called callees receive; their clauses address the owning object with unbox(p, Owner)"] = true
+				return Interior{p.ref, p.idx, p.prefix, p.ty}
+			}
 			unsupp("interior pointer &%s (prefix %s) at %s", exprString(e), p.prefix, c.posStr(e.Pos()))
 		}
 		return Ptr{p.ref, p.idx, p.ty}
